@@ -7,7 +7,7 @@ import ast
 from ..interp import cval, has_const
 from ..source import norm_text
 from .formula import check_label, label_obligations, match_mono
-from .geo import kind_errors, uniq_events
+from .geo import kind_errors, under, uniq_events
 
 TR = 'gemdat.transitions.Transitions'
 JU = 'gemdat.jumps.Jumps'
@@ -113,7 +113,7 @@ def check(ctx):
             ctx.ob('R1', fi, f'{q.split(".")[-2]}.{q.split(".")[-1]}: {n} subscript / store sites', True, 'no index can be the NOSITE marker')
 
     # ---- R2
-    kind_errors(ctx, 'R2', it, lambda f: f.qualname == f'{JU}.jump_diffusivity', strict=True)
+    kind_errors(ctx, 'R2', it, under(f'{JU}.jump_diffusivity'), strict=True)
     fj = ctx.fn(f'{JU}.jump_diffusivity')
     r, s0, s1 = results[(JU, 'jump_diffusivity')]
     ok, msg = match_mono(r.mono if r is not None else None, 0.5, {
